@@ -37,6 +37,10 @@ THE SOFTWARE.
 #include <amgcl/backend/builtin_hybrid.hpp>
 #include <amgcl/util.hpp>
 
+#ifdef AMGCL_VERIF
+namespace amgcl_verif { struct access; }
+#endif
+
 namespace amgcl {
 namespace relaxation {
 namespace detail {
@@ -195,6 +199,10 @@ class ilu_solve< backend::builtin<value_type, col_type, ptr_type> > {
         }
 
     private:
+#ifdef AMGCL_VERIF
+        friend struct ::amgcl_verif::access;
+#endif
+
         static int num_threads() {
 #ifdef _OPENMP
             return omp_get_max_threads();
@@ -272,6 +280,10 @@ class ilu_solve< backend::builtin<value_type, col_type, ptr_type> > {
             std::vector< std::vector<value_type> > val;
             std::vector< std::vector<ptrdiff_t>  > ord; // rows ordered by levels
             std::vector< std::vector<value_type> > D;
+
+#ifdef AMGCL_VERIF
+            friend struct ::amgcl_verif::access;
+#endif
 
             template <class Matrix>
             sptr_solve(const Matrix &A, const value_type *_D = 0)
